@@ -245,7 +245,7 @@ def check_C15(tier: str, seed: int) -> int:
     try:
         # (1) design: exhaustive over all well-nested sequences (contexts / decorators / raising exits / turn_*)
         info, o, violated = core.design_run(out, spec, os.path.join(tlc.SPEC, "Context_mc.cfg"), workers=16,
-                                            label="Context exhaustive (depth 7)")
+                                            label="Context exhaustive (nesting depth 5, turn_* also inside scopes)")
         if violated:
             out.machinery("Context.tla: a design property is violated - the mechanism spec itself is wrong: " + o[-800:])
         out.coverage["states"] = out.coverage.get("states", 0) + (info["distinct_states"] or 0)
@@ -258,7 +258,7 @@ def check_C15(tier: str, seed: int) -> int:
             cfg = os.path.join(scratch, "Context_emit.cfg")
             with open(cfg, "w") as f:
                 f.write(f"SPECIFICATION Spec\nCONSTANTS\n  MaxLen = {5 if quick else 7}\n  MaxDepth = {4 if quick else 5}\n"
-                        "  EmitHist = TRUE\nINVARIANT DepthConsistent\nINVARIANT Emit\nPROPERTY ScopedRestore\nCHECK_DEADLOCK FALSE\n")
+                        "  TurnInside = TRUE\n  EmitHist = TRUE\nINVARIANT DepthConsistent\nINVARIANT Emit\nPROPERTY ScopedRestore\nCHECK_DEADLOCK FALSE\n")
             rc, o2, wall = tlc.run_tlc(spec, cfg, workers=1, timeout=3000, heap="8g")
         finally:
             shutil.rmtree(scratch, ignore_errors=True)
@@ -292,7 +292,7 @@ def check_C15(tier: str, seed: int) -> int:
         out.machinery(str(e)[:3000])
     out.assumptions += ["scopes are exited in LIFO order (with-statements / decorators); turn_memory_guarding_* only outside scopes"]
     return finish_model_checking(
-        out, "Context.tla: exhaustive state graph to nesting depth 7; every behaviour of the stated length is replayed with "
+        out, "Context.tla: exhaustive state graph to nesting depth 5 (turn_memory_guarding_* also inside scopes); every behaviour of the stated length is replayed with "
              "real with-blocks/decorators/raising bodies; plus random programs inside scopes validated against Ref.tla")
 
 
